@@ -64,6 +64,7 @@ type migration struct {
 var validKeys []string
 
 var nodeType = reflect.TypeOf((*node.Node)(nil)).Elem()
+var poolType = reflect.TypeOf((*node.Pool)(nil)).Elem()
 
 var (
 	schemas    map[string]*Ty
@@ -113,7 +114,7 @@ func loadSchemas() {
 	goTypes["node.Pool"] = reflect.TypeOf((*node.Pool)(nil)).Elem()
 	goTypes["block.MagicBlock"] = reflect.TypeOf((*block.MagicBlock)(nil)).Elem()
 	// node.Node decodes its public key (herumi BLS): values need well-formed keys
-	for i := 0; i < 4; i++ {
+	for i := 0; i < 24; i++ {
 		ss := encryption.NewBLS0ChainScheme()
 		if err := ss.GenerateKeys(); err != nil {
 			fmt.Fprintln(os.Stderr, "c08: bls keys:", err)
